@@ -48,14 +48,14 @@ def run(ctx):
         c01.gen_jobs(ctx, binp, lay, "len", [
             ("types", 4, s4), ("rrhdr", 1, [0]), ("opts", 1, [0]), ("svcb", 1, [0]), ("gateway", 1, [0]),
             ("nodata", 1, [0]), ("unknown", 1, [0]), ("rcode", 1, [0]), ("sections", 1, [0]),
-            ("big", 1, [0]), ("compress", 1, [0]), ("orders", 1, [0]), ("straddle", 2, [0, 1]), ("cross", 4, [ctx.seed % 4])], tier=0, module="Gen_CompressLen")
+            ("big", 1, [0]), ("compress", 1, [0]), ("orders", 1, [0]), ("empty", 1, [0]), ("straddle", 2, [0, 1]), ("cross", 4, [ctx.seed % 4])], tier=0, module="Gen_CompressLen")
         c01.tv(ctx, binp, lay, 1500, 4, sub="lenrec", module="Trace_CompressLen", prefix="len/trace-")
     else:
         mc(ctx, 1, 5)
         c01.gen_jobs(ctx, binp, lay, "len", [
             ("types", 4, [0, 1, 2, 3]), ("cross", 4, [0, 1, 2, 3]), ("compress", 4, [0, 1, 2, 3]), ("rcode", 4, [0, 1, 2, 3]),
             ("rrhdr", 1, [0]), ("opts", 1, [0]), ("svcb", 1, [0]), ("gateway", 1, [0]), ("nodata", 1, [0]),
-            ("unknown", 1, [0]), ("sections", 1, [0]), ("big", 1, [0]), ("orders", 1, [0]), ("straddle", 8, list(range(8))), ("hdr", 16, [ctx.seed % 16])], tier=1, module="Gen_CompressLen")
+            ("unknown", 1, [0]), ("sections", 1, [0]), ("big", 1, [0]), ("orders", 1, [0]), ("empty", 1, [0]), ("straddle", 8, list(range(8))), ("hdr", 16, [ctx.seed % 16])], tier=1, module="Gen_CompressLen")
         c01.tv(ctx, binp, lay, 6000, 16, sub="lenrec", module="Trace_CompressLen", prefix="len/trace-")
     known = vp.load_known()
     if ctx.notes.get("model_mismatch_total") and all((ctx.id, c["key"]) in known for c in ctx.cands):
